@@ -293,6 +293,15 @@ class MaskProp(core.Prop):
             win = range(-R, R + 1)
             yield from self._exhaustive_with_sym(R, [((rd, cd),) for rd in win for cd in win], "one")
 
+        # A+. quick tier too: one blocker at every offset of two LONG ranges (cells exactly on a shadow ray first occur
+        #     at range 15: finding F7), without the symmetric images
+        if quick:
+            for R in (15, 17):
+                win = range(-R, R + 1)
+                for rd in win:
+                    for cd in win:
+                        yield self._case(centred(R, [(rd, cd)]), "one-long-range")
+
         # A'. every flag combination (and a blocking viewer) at every offset, small ranges
         for R in range(0, 4):
             win = range(-R, R + 1)
